@@ -150,18 +150,20 @@ Definition is_marker (span data : str) : Prop :=
 Definition EQ_QQ : str := [61;34;34]%N.                                (* ="" *)
 Definition is_attr (name a : str) : Prop :=
   exists w, length w = 6 /\ Forall (fun c => is_word c = true) w /\ a = name ++ w ++ EQ_QQ.
-Inductive is_attrs (name : str) : str -> Prop :=
-| attrs_nil : is_attrs name []
-| attrs_cons a b : is_attr name a -> is_attrs name b -> is_attrs name (a ++ b).
+(* one attribute of a placeholder: ` data-djc-id-XXXXXX=""` or ` data-djc-css-XXXXXX=""` *)
+Definition is_comp_attr (a : str) : Prop := is_attr COMP_ID a \/ is_attr CSS_ID a.
+Inductive is_attrs : str -> Prop :=
+| attrs_nil : is_attrs []
+| attrs_cons a b : is_comp_attr a -> is_attrs b -> is_attrs (a ++ b).
 
-(* <link name="CSS_PLACEHOLDER"[ data-djc-css-XXXXXX=""]( data-djc-id-XXXXXX="")*[/]>   and
-   <script name="JS_PLACEHOLDER"[ data-djc-css-XXXXXX=""]( data-djc-id-XXXXXX="")*></script> *)
+(* <link name="CSS_PLACEHOLDER"( data-djc-(id|css)-XXXXXX="")*[/]>   and
+   <script name="JS_PLACEHOLDER"( data-djc-(id|css)-XXXXXX="")*></script>      (attributes in any order and number) *)
 Definition JS_CLOSE : str := [62;60;47;115;99;114;105;112;116;62]%N.   (* ></script> *)
 Definition is_placeholder (span : str) (k : kind) : Prop :=
-  exists o ids, (o = [] \/ is_attr CSS_ID o) /\ is_attrs COMP_ID ids /\
+  exists ids, is_attrs ids /\
     match k with
-    | KCss => exists sl, (sl = [] \/ sl = [47%N]) /\ span = CSS_OPEN ++ o ++ ids ++ sl ++ [GT]
-    | KJs => span = JS_OPEN ++ o ++ ids ++ JS_CLOSE
+    | KCss => exists sl, (sl = [] \/ sl = [47%N]) /\ span = CSS_OPEN ++ ids ++ sl ++ [GT]
+    | KJs => span = JS_OPEN ++ ids ++ JS_CLOSE
     end.
 
 (* `parts_of P d l`: the text d is cut, left to right, into kept symbols (inl) and spans that satisfy P (inr, with
